@@ -124,6 +124,8 @@ def c06_generate(seed: int, tier: str) -> dict:
             value = round(orr.uniform(base, base + 50), 2)
         elif chance(orr, 0.15) and path[0] not in ("zones", "nz", "asof"):
             value = None
+        elif path[0] == "flags":
+            value = chance(orr, 0.5)
         elif chance(orr, 0.3) and any(isinstance(v, float) for _d, v in _vals):
             # the very value the parameter already has somewhere in its history
             value = pick(orr, [v for _d, v in _vals if isinstance(v, float)])
@@ -186,7 +188,7 @@ def c06_check_all(res, step, root, tree, models, leaves, dates, what):
                 res.violate("C06.value", step, path=list(path), date=d, expected=m.at(d), got=got, after=what)
                 return
     # groups expose exactly the members defined at the date
-    for gpath in (("g",), ("g", "h"), ()):
+    for gpath in (("g",), ("g", "h"), ("flags",), ()):
         node = get_param(root, gpath) if gpath else root
         spec = PW.spec_at(tree, gpath)
         for d in dates[:: max(1, len(dates) // 12)]:
@@ -201,6 +203,19 @@ def c06_check_all(res, step, root, tree, models, leaves, dates, what):
                         return
                 elif child["kind"] == "node" and not exposed:
                     res.violate("C06.group", step, group=list(gpath), member=name, date=d, what="sub-group not exposed", after=what)
+                    return
+            if gpath == ("flags",):
+                # the same through a vector of member names: served when all of them are
+                # defined at the date, refused otherwise
+                names = sorted(spec["children"])
+                undefined = [n for n in names if models[(*gpath, n)].at(d) is None]
+                try:
+                    served = [bool(x) for x in numpy.asarray(at[numpy.array(["f0", *names])]).tolist()]
+                except Exception:  # noqa: BLE001
+                    served = None
+                want = None if undefined else [bool(models[(*gpath, n)].at(d)) for n in ["f0", *names]]
+                if served != want:
+                    res.violate("C06.group", step, group=list(gpath), date=d, what="vector of member names", undefined=undefined, expected=want, got=served, after=what)
                     return
     for name, node in tree.items():
         if node["kind"] != "scale":
@@ -329,7 +344,7 @@ def gen_mods(rng, tree, n=None):
         elif kind == "update":
             path = pick(rng, leaves)
             dates = sorted(d for d, v in PW.spec_at(tree, path)["values"] if v != "expected")
-            value = round(rng.uniform(0, 10), 2)
+            value = round(rng.uniform(0, 10), 2) if path[0] != "flags" else chance(rng, 0.5)
             mods.append(["update", list(path), gen_range(rng, dates), value])
         elif kind == "add_child":
             mods.append(["add_child", pick(rng, [[], ["g"], ["g", "h"]]), f"new{rng.randrange(1000)}", PW.gen_leaf(rng)])
@@ -350,7 +365,7 @@ def gen_read(rng, tree, systems, hot=None, pool=None):
         else:
             path = pick(rng, leaves)
             date = pick(rng, pool) if pool and chance(rng, 0.4) else PW.rand_date(rng)
-        route = pick(rng, ["a", "a", "a_instant", "a_period", "a_year", "c", "d"])
+        route = pick(rng, ["a", "a", "a_instant", "a_period", "a_year", "c", "d", "a_wd", "b_wd"])
         if route == "a_year" and chance(rng, 0.7):
             date = date[:4] + "-01-01"
         return ["read", sysid, route, list(path), date]
@@ -361,7 +376,7 @@ def gen_read(rng, tree, systems, hot=None, pool=None):
         # ... after which the reader may work on a copy of what it read (a reader's
         # own arithmetic: nobody else's reads may notice)
         return ["sread", sysid, pick(rng, ["a", "b"]), date, pick(rng, [None, None, "copy_rates", "copy_bracket", "copy_thresholds", "new_rates"])]
-    kind = weighted(rng, [("str", 3), ("enum", 2), ("enumarray", 2), ("nested", 2), ("date", 4)])
+    kind = weighted(rng, [("str", 3), ("enum", 2), ("enumarray", 2), ("nested", 2), ("date", 4), ("flags", 2.5)])
     route = pick(rng, ["a", "a", "c", "d"])
     if kind == "date":
         keys = [PW.rand_date(rng, 2006, 2021) for _ in range(rng.randint(1, 5))]
@@ -370,6 +385,10 @@ def gen_read(rng, tree, systems, hot=None, pool=None):
             c = pick(rng, cuts)[len("after_"):].replace("_", "-")
             keys.append(PW.shift(c, pick(rng, [-1, 0, 1])))
         return ["vread", sysid, route, "date", keys, date]
+    if kind == "flags":
+        # flags other than the first may be undefined at the date: the read must then fail
+        keys = ["f0"] * chance(rng, 0.6) + [pick(rng, ["f0", "f1", "f2"]) for _ in range(rng.randint(1, 4))]
+        return ["vread", sysid, pick(rng, ["a", "a", "c"]), "flags", keys, date]
     group = "nz" if kind == "nested" else "zones"
     names = sorted(tree[group]["children"])
     keys = [pick(rng, names) for _ in range(rng.randint(1, 5))]
@@ -524,10 +543,16 @@ def read_scalar(system, route, path, date, res, keep=None, sid=None):
                 arg = periods.period(f"day:{date}:3")
             elif route == "a_year" and date[5:] == "01-01":
                 arg = int(date[:4])
+            elif route == "a_wd":
+                arg = PW.weekday_text(date)  # the day spelled as an ISO week date
             node = system.get_parameters_at_instant(arg)
             for part in path:
                 node = getattr(node, part)
             return ("val", float(node))
+        if route == "b_wd":
+            # the parameter object itself, asked with the day spelled as an ISO week date
+            got = PW.read_direct(system.parameters, path, PW.weekday_text(date))
+            return ("undef",) if got is None else ("val", float(got))
         PW.CUR["path"] = tuple(path)
         sim = keep.get((sid, route)) if keep is not None else None
         if sim is not None and sim.tax_benefit_system is system:
@@ -735,7 +760,7 @@ def run_c07(scn) -> Result:
                 if sid not in systems:
                     continue
                 system = systems[sid]
-                group = {"date": "asof", "nested": "nz"}.get(vkind, "zones")
+                group = {"date": "asof", "nested": "nz", "flags": "flags"}.get(vkind, "zones")
                 gnode = getattr(system.parameters, group, None)
                 if gnode is None:
                     continue
@@ -749,7 +774,7 @@ def run_c07(scn) -> Result:
                         key = numpy.array(keys)
                     else:
                         want = [PW.read_direct(gnode, (k,), date) for k in keys]
-                        if vkind == "str":
+                        if vkind in ("str", "flags"):
                             key = numpy.array(keys)
                         elif vkind == "enum":
                             key = numpy.array([PW.Zone[k] for k in keys], dtype=object)
@@ -758,6 +783,24 @@ def run_c07(scn) -> Result:
                 except (AttributeError, KeyError):
                     continue
                 if any(w is None for w in want):
+                    if vkind != "flags":
+                        continue
+                    # a member that is not defined at the date: a vector read naming it
+                    # must fail, as the read by name does
+                    res.count("clause:C07.agree")
+                    res.count("probe:vector_names_an_undefined_member")
+                    try:
+                        if route == "a":
+                            served = getattr(system.get_parameters_at_instant(date), group)[key]
+                        else:
+                            PW.CUR["group"], PW.CUR["keys"] = (group,), key
+                            sim = SimulationBuilder().build_default_simulation(system, count=len(keys))
+                            served = sim.calculate("rpz", date)
+                    except Exception as e:  # noqa: BLE001
+                        H.add(op["actor"], "vread", do[1:], ["raises", type(e).__name__])
+                        continue
+                    res.violate("C07.agree", step, op=do, route=route, vector=vkind, what="a vector read served a member that is not defined at the date",
+                                undefined=[k for k, w in zip(keys, want) if w is None], got=[float(x) for x in numpy.asarray(served).tolist()])
                     continue
                 try:
                     if route == "a":
